@@ -13,6 +13,7 @@ import Driver.Util
 import PyroModel.PyIR
 import PyroModel.Gen.C06
 import PyroModel.C06AstRun
+import PyroModel.C06Glue
 
 open Pyro Pyro.Wire Driver
 
@@ -99,7 +100,18 @@ def step : List String → String
                                              isSub := fun a b => decide (a = b), unzip := z.decompress }
               let ir := Pyro.C06AstRun.toDecoded hdr (Pyro.C06AstRun.runAddPayload cfgIR Pyro.Gen.C06.addPayloadSrc hdr body)
               if Pyro.C06AstRun.sameOutcome ir (addPayload z hdr body) then "" else " IR!"
-        (fun (t : String) => t ++ irTag ++ ihTag) <|
+        -- the shallow transcription of today's recv_stub itself (harness/props/c06_tr.py), run on the same stream with the model's
+        -- collaborators (PyroProps/C06Src.lean proves it equals recvStub; a difference shows as " IG!")
+        let igTag : String :=
+          match Pyro.C06Glue.run (Pyro.Gen.C06.recvStubGlueSrc (Pyro.C06Glue.modelOps { compression := false, maxSize := max } z) accepted) stream with
+          | none => " IG!"
+          | some g =>
+            let sameOut : Bool := match g.out, r.out with
+              | .ok a, .ok b => a == b
+              | .error a, .error b => a == b
+              | _, _ => false
+            if sameOut && g.requested == r.requested && g.rest == r.rest then "" else " IG!"
+        (fun (t : String) => t ++ irTag ++ ihTag ++ igTag) <|
         match r.out with
         | .ok d =>
           s!"ok {d.type} {d.serId} {d.flags} {d.seq} {bytesToHex d.data} {bytesToHex d.corr} {d.anns.length} " ++
